@@ -97,6 +97,24 @@ int valid_object(object ob) { if (file_name(ob) == VALID_OBJECT_DENY) { rec("VET
 int valid_object(object ob) { return 1; }
 #endif
 int valid_save_binary(string file) { rec("VSB " + file); return 1; }
+// virtual objects (C08): what compile_object() answers for names under /v/ is set by the plan through set_vo()
+mapping vomap; object vo_last;
+void set_vo(string name, string how) { if (!vomap) vomap = ([ ]); vomap[name] = how; }
+mixed compile_object(string file) {
+  string how; object o;
+  if (!vomap || !(how = vomap[file])) return 0;
+  rec("VO " + file + " " + how);
+  switch (how) {
+  case "clone": vo_last = clone_object("/wobj"); return vo_last;        // a fresh object
+  case "again": return vo_last;                                           // the object already handed out for another name
+  case "dead": o = clone_object("/wobj"); destruct(o); return o;          // a destructed object
+  case "int": return 7;
+  case "err": error("compile_object bomb\n");
+  case "master": return this_object();
+  }
+  if (how[0..3] == "tag:") return lookup(how[4..]);                       // an existing, tagged object
+  return 0;
+}
 mapping regnames;
 void regname(string t, string n) { if (!regnames) regnames = ([ ]); regnames[t] = n; }
 mapping query_regnames() { return regnames ? regnames : ([ ]); }
